@@ -1853,3 +1853,10 @@ M("c06-timer-wakes-without-the-error", "C06", "R4.woken-with-the-error", "concur
 M("c06-orphaned-nested-executor-not-woken", "C06", "R4.done-callback-routes-every-outcome", "concurrency/executor.py",
   "            # executor runs inside an orphaned branch: unwind it instead of waiting for ever.\n            self._fatal_exception = e\n            self._completion_event.set()\n            return",
   "            # executor runs inside an orphaned branch: unwind it instead of waiting for ever.\n            self._fatal_exception = e\n            return")
+M("c05-stopped-consumer-drains-without-releasing", "C05", "R6.stop-releases-queued-waiters", "state.py",
+  "                        if item.completion_event:\n                            item.completion_event.set(stopped_error)\n                    except queue.Empty:\n                        break\n\n        logger.debug(\"Background checkpoint processing stopped\")",
+  "                        if item.completion_event:\n                            pass\n                    except queue.Empty:\n                        break\n\n        logger.debug(\"Background checkpoint processing stopped\")")
+M("c07-timer-reads-the-sequence-number-as-time", "C07", "R4.timer-heap-layout-agrees", "concurrency/executor.py",
+  "                    next_resume_time = self._pending_resumes[0][0]", "                    next_resume_time = self._pending_resumes[0][1]")
+M("c07-timer-peeks-at-the-second-entry", "C07", "R4.timer-heap-layout-agrees", "concurrency/executor.py",
+  "                    next_resume_time = self._pending_resumes[0][0]", "                    next_resume_time = self._pending_resumes[1][0]")
